@@ -28,6 +28,7 @@
 ;;;;;;;;;;;;;;;;;;;;;;;;;;;;;;;;;;;;;;;;;;;;;;;;;;;;;;;;;;;;;;;;;;;;;;;;
 
 %include "reg_sizes.asm"
+%include "clear_regs.inc"
 
 [bits 64]
 default rel
@@ -192,6 +193,9 @@ _aes_keyexp_192_sse:
 	add	rsp, 16*2 + 8
 %endif
 
+%ifdef SAFE_DATA
+	clear_scratch_xmms_sse_asm	; round keys must not stay in registers
+%endif
      ret
 
 
@@ -271,4 +275,7 @@ _aes_keyexp_192_avx:
 	add	rsp, 16*2 + 8
 %endif
 
+%ifdef SAFE_DATA
+	clear_scratch_xmms_avx_asm	; round keys must not stay in registers
+%endif
      ret
